@@ -35,7 +35,9 @@ enum LogEntry {
     Update(String, Vec<u8>, Vec<u8>),
     Remove(String, Vec<u8>),
     Clear(String),
-    Frame(u64, String, String), // remote, lane, kind / body
+    Frame(u64, String, String),
+    /// the remote's channel was closed by the agent
+    Closed(u64), // remote, lane, kind / body
 }
 type Log = Arc<Mutex<Vec<LogEntry>>>;
 
@@ -110,6 +112,8 @@ enum Act {
     OthersRescind,
     Stop,
     Settle,
+    /// time passes (seconds)
+    Advance(u64),
 }
 
 const NODE: &str = "/node";
@@ -121,7 +125,7 @@ async fn settle() {
     }
 }
 
-async fn run_case(acts: &[Act], nremotes: u64, stop_delay: usize) -> (Vec<LogEntry>, Option<String>) {
+async fn run_case(acts: &[Act], nremotes: u64, stop_delay: usize, prune_secs: u64) -> (Vec<LogEntry>, Option<String>) {
     let log: Log = Default::default();
     let store = RecStore { names: Mutex::new(vec![]), log: log.clone() };
     let (v_tx, v_rx) = byte_channel(non_zero_usize!(65536));
@@ -132,7 +136,7 @@ async fn run_case(acts: &[Act], nremotes: u64, stop_delay: usize) -> (Vec<LogEnt
     let mut m_tx = FramedWrite::new(m_tx, MapLaneResponseEncoder::default());
     let (msg_tx, msg_rx) = mpsc::unbounded_channel();
     let (write_voter, read_voter, http_voter, mut unanimous) = agent_timeout_coordinator();
-    let config = AgentRuntimeConfig { inactive_timeout: INACTIVE, prune_remote_delay: Duration::from_secs(3600), ..Default::default() };
+    let config = AgentRuntimeConfig { inactive_timeout: INACTIVE, prune_remote_delay: Duration::from_secs(prune_secs), ..Default::default() };
     let lanes = vec![
         ("v".to_string(), UplinkKind::Value, false, v_rx),
         ("t".to_string(), UplinkKind::Value, true, t_rx),
@@ -162,6 +166,7 @@ async fn run_case(acts: &[Act], nremotes: u64, stop_delay: usize) -> (Vec<LogEnt
                 };
                 log.lock().push(LogEntry::Frame(r, lane, kind));
             }
+            log.lock().push(LogEntry::Closed(r));
         });
     }
     settle().await;
@@ -225,6 +230,9 @@ async fn run_case(acts: &[Act], nremotes: u64, stop_delay: usize) -> (Vec<LogEnt
                 let _ = msg_tx.send(WriteTaskInput::Stop);
             }
             Act::Settle => {}
+            Act::Advance(secs) => {
+                tokio::time::advance(Duration::from_secs(*secs)).await;
+            }
         }
         settle().await;
         if stop_in.is_none() && futures::FutureExt::now_or_never(&mut unanimous).is_some() {
@@ -291,6 +299,7 @@ fn coq_entry(e: &LogEntry) -> Option<String> {
         LogEntry::Update(n, k, v) => format!("LMap {} (MUpdate {} {})", item_index(n), zi(parse_i(k)?), zi(parse_i(v)?)),
         LogEntry::Remove(n, k) => format!("LMap {} (MRemove {})", item_index(n), zi(parse_i(k)?)),
         LogEntry::Clear(n) => format!("LMap {} MClear", item_index(n)),
+        LogEntry::Closed(r) => format!("LClosed {}", r),
         LogEntry::Frame(r, lane, kind) => {
             if let Some(b) = kind.strip_prefix("event ") {
                 if lane == "m" {
@@ -316,7 +325,7 @@ fn main() {
     let mut w = CaseWriter::new(
         "From SwimV Require Import Model.Persist.\nOpen Scope N_scope.",
         "pcase",
-        &["w_oracle_bad"],
+        &["w_oracle_bad", "w_links_bad"],
         args.shards,
     );
     let mut kinds: BTreeMap<String, u64> = BTreeMap::new();
@@ -325,11 +334,11 @@ fn main() {
     let mut samples = vec![];
     let lanes: [&'static str; 3] = ["v", "t", "m"];
 
-    let mut emit = |acts: Vec<Act>, nrem: u64, delay: usize, w: &mut CaseWriter, failures: &mut Vec<String>| {
+    let mut emit = |acts: Vec<Act>, nrem: u64, delay: usize, prune_secs: u64, w: &mut CaseWriter, failures: &mut Vec<String>| {
         let acts2 = acts.clone();
         let (log, problem) = match catch(std::panic::AssertUnwindSafe(|| {
             let rt = tokio::runtime::Builder::new_current_thread().enable_all().start_paused(true).build().unwrap();
-            rt.block_on(run_case(&acts2, nrem, delay))
+            rt.block_on(run_case(&acts2, nrem, delay, prune_secs))
         })) {
             Ok(x) => x,
             Err(m) => {
@@ -389,10 +398,14 @@ fn main() {
     };
 
     // corpus: an event that arrives after the vote to stop has become unanimous
-    emit(vec![Act::Link(1, "v"), Act::Event("v", 1), Act::Timeout, Act::OthersVote, Act::Event("v", 2), Act::Settle], 1, 1, &mut w, &mut failures);
-    emit(vec![Act::Link(1, "v"), Act::Event("v", 1), Act::OthersVote, Act::Timeout, Act::Event("v", 2), Act::Settle], 1, 1, &mut w, &mut failures);
-    emit(vec![Act::Link(1, "m"), Act::Event("m", 4), Act::Timeout, Act::Event("m", 5), Act::OthersVote, Act::Event("m", 6), Act::Stop], 1, 2, &mut w, &mut failures);
-    emit(vec![Act::Link(1, "v"), Act::Event("v", 1), Act::Timeout, Act::OthersVote, Act::OthersRescind, Act::Event("v", 2), Act::Stop, Act::Event("v", 3)], 1, 1, &mut w, &mut failures);
+    emit(vec![Act::Link(1, "v"), Act::Event("v", 1), Act::Timeout, Act::OthersVote, Act::Event("v", 2), Act::Settle], 1, 1, 3600, &mut w, &mut failures);
+    emit(vec![Act::Link(1, "v"), Act::Event("v", 1), Act::OthersVote, Act::Timeout, Act::Event("v", 2), Act::Settle], 1, 1, 3600, &mut w, &mut failures);
+    emit(vec![Act::Link(1, "m"), Act::Event("m", 4), Act::Timeout, Act::Event("m", 5), Act::OthersVote, Act::Event("m", 6), Act::Stop], 1, 2, 3600, &mut w, &mut failures);
+    emit(vec![Act::Link(1, "v"), Act::Event("v", 1), Act::Timeout, Act::OthersVote, Act::OthersRescind, Act::Event("v", 2), Act::Stop, Act::Event("v", 3)], 1, 1, 3600, &mut w, &mut failures);
+
+    // corpus: a remote that links again while its pruning is pending must stay
+    emit(vec![Act::Link(1, "v"), Act::Unlink(1, "v"), Act::Advance(7), Act::Link(1, "v"), Act::Advance(21), Act::Event("v", 5), Act::Settle], 1, 1, 20, &mut w, &mut failures);
+    emit(vec![Act::Link(1, "v"), Act::Link(2, "v"), Act::Unlink(1, "v"), Act::Advance(21), Act::Event("v", 5), Act::Settle], 2, 1, 20, &mut w, &mut failures);
 
     for _ in 0..args.cases {
         let nrem = rng.range(1, 3);
@@ -404,12 +417,14 @@ fn main() {
                 }
             }
         }
+        // half of the cases prune idle remotes after 20 s (the inactivity timeout is 30 s)
+        let prune_secs = if rng.below(2) == 0 { 3600 } else { 20 };
         let mut next = 10i64;
         let n = rng.range(3, 14);
         for _ in 0..n {
             let r = rng.range(1, nrem);
             let lane = *rng.pick(&lanes);
-            acts.push(match rng.below(20) {
+            acts.push(match rng.below(22) {
                 0..=7 => {
                     next += 1;
                     Act::Event(lane, next)
@@ -422,11 +437,12 @@ fn main() {
                 15..=16 => Act::OthersVote,
                 17 => Act::OthersRescind,
                 18 => Act::Stop,
-                _ => Act::Settle,
+                19 if prune_secs < 3600 => Act::Advance(*rng.pick(&[7u64, 13, 21])),
+                _ => if prune_secs < 3600 && rng.below(2) == 0 { Act::Advance(*rng.pick(&[7u64, 13])) } else { Act::Settle },
             });
         }
         let delay = rng.below(3) as usize;
-        emit(acts, nrem, delay, &mut w, &mut failures);
+        emit(acts, nrem, delay, prune_secs, &mut w, &mut failures);
     }
 
     w.finish(&args.out, "cases").unwrap();
@@ -435,7 +451,7 @@ fn main() {
     let meta = J::obj(vec![
         ("evaluations", J::I(w.len() as i128)),
         ("distinct_nontrivial", J::I(nontrivial as i128)),
-        ("rule", J::s("the runtime's real write_task (hook run_write_task) over three scripted lanes (persistent value, transient value, persistent map), a recording NodePersistence and 1-2 remotes whose frames are logged on the store's clock; virtual time; 3-14 actions out of: a lane event (40%), a map clear, a targeted sync answer, link, unlink, the inactivity timeout passing (15%), the other two voters voting (10%) / rescinding, the stop message; the task is told to stop 0-2 actions after the vote has become unanimous; the log must satisfy log_ok of Model/Persist.v (everything a remote read of a persistent lane had been handed to the store before) and provenance_ok (whatever reaches the store under an item's id was reported by that item; nothing is deleted); non-trivial = a lane event after the write task voted and the others voted too")),
+        ("rule", J::s("the runtime's real write_task (hook run_write_task) over three scripted lanes (persistent value, transient value, persistent map), a recording NodePersistence and 1-2 remotes whose frames are logged on the store's clock; virtual time; 3-14 actions out of: a lane event (40%), a map clear, a targeted sync answer, link, unlink, the inactivity timeout passing (15%), the other two voters voting (10%) / rescinding, the stop message, and - in the half of the cases in which idle remotes are pruned after 20 s - 7, 13 or 21 s passing; the task is told to stop 0-2 actions after the vote has become unanimous; the log must satisfy log_ok of Model/Persist.v (everything a remote read of a persistent lane had been handed to the store before) and provenance_ok (whatever reaches the store under an item's id was reported by that item; nothing is deleted) and links_ok (C04: per remote and lane linked, then events / synced, then unlinked; the agent closes a remote's channel only when none of its links is open); non-trivial = a lane event after the write task voted and the others voted too")),
         ("structures", J::counts(&kinds)),
         ("samples", J::A(samples)),
         ("direct_failures", J::A(failures.iter().take(40).map(|f| J::s(f.chars().take(500).collect::<String>())).collect())),
